@@ -1,1 +1,4 @@
 pub mod eval;
+pub mod lex;
+pub mod parse;
+pub mod print;
